@@ -664,8 +664,18 @@ func structTypeTags(t reflect.Type) []string {
 // groupCase: one object type whose 2-3 same-typed fields share an either / botheq group, with the value
 // assignments {all empty, one set, all equal, one differing by the smallest step}; the object alone, in
 // a slice of 2-3 (different assignments), or nested.
+// member kinds of either / botheq groups beyond scalars: emptiness is IsZero, equality is DeepEqual
+var groupCompositeTypes = []reflect.Type{
+	reflect.TypeOf(Leaf{}), reflect.TypeOf([3]uint8{}), reflect.TypeOf([2]string{}), reflect.TypeOf([]string(nil)),
+	reflect.TypeOf(map[string]int(nil)), reflect.TypeOf((*int)(nil)), reflect.TypeOf((*Leaf)(nil)), reflect.TypeOf([]int(nil)),
+}
+
 func groupCase(r *rand.Rand) Case {
 	t := pick(r, scalarTypes)
+	composite := chance(r, 0.25)
+	if composite {
+		t = pick(r, groupCompositeTypes)
+	}
 	n := 2 + r.IntN(2)
 	rule := pick(r, []string{"either", "botheq", "botheq"}) + "=" + pick(r, []string{"1", "g"})
 	var fs []reflect.StructField
@@ -691,6 +701,31 @@ func groupCase(r *rand.Rand) Case {
 	st := reflect.StructOf(fs)
 	mk := func() reflect.Value {
 		v := reflect.New(st).Elem()
+		if composite {
+			// all empty / one set / all the same value / one differing; "empty but not zero" values
+			// (empty non-nil slices and maps) appear through fill
+			g := &wgen{r: r}
+			mkv := func() reflect.Value {
+				x := reflect.New(t).Elem()
+				for k := 0; k < 3 && x.IsZero(); k++ {
+					g.fill(x, 0)
+				}
+				return x
+			}
+			base := mkv()
+			mode := r.IntN(4)
+			for i := 0; i < st.NumField(); i++ {
+				switch {
+				case mode == 0:
+				case mode == 1 && i == 0, mode >= 2:
+					v.Field(i).Set(base)
+				}
+			}
+			if mode == 3 {
+				v.Field(r.IntN(n)).Set(mkv())
+			}
+			return v
+		}
 		base := reflect.ValueOf(scalarNear(r, t.Kind(), pick(r, smallInts)))
 		if chance(r, 0.4) {
 			base = reflect.ValueOf(scalarNear(r, t.Kind(), pick(r, boundaryInts)))
@@ -893,6 +928,21 @@ func walkerCase(r *rand.Rand, p walkProfile) Case {
 			}
 			if !dup {
 				call.typed[reflect.New(st).Interface()] = rm
+				if chance(r, 0.25) {
+					// an earlier rule set for the same type, replaced by this one
+					first := valid.RM{}
+					for j := 0; j < st.NumField(); j++ {
+						if chance(r, 0.5) {
+							f := st.Field(j)
+							first[f.Name] = randRuleList(r, f.Type.Kind(), reflect.Value{}, g.maxRules, g.o)
+						}
+					}
+					if call.shadowed == nil {
+						call.shadowed = map[reflect.Type]valid.RM{}
+					}
+					call.shadowed[st] = first
+					tags = append(tags, "rm:set-twice")
+				}
 			}
 		}
 		tags = append(tags, "rm:typed")
